@@ -285,3 +285,35 @@ PROPS["C12"] = dict(
     trusted=COMMON_TRUST + ["Float tolerance 1e-10 relative on weights; the sequential operator for the distributed comparison comes from the real sequential routine"],
     assumptions=["extended interpolation: specification predicates and distributed = sequential only (no executable model at this commit)"],
 )
+
+
+def sa_configs(prop, quick_np, thorough_np):
+    def configs(tier, seed):
+        cfgs = [{"tag": f"h_sa-{prop}-seq", "harness": "h_sa", "np": 1, "args": [prop, "seq"], "asan": True}]
+        for n in nps(tier, quick_np, thorough_np):
+            cfgs.append({"tag": f"h_sa-{prop}-par-np{n}", "harness": "h_sa", "np": n, "args": [prop, "par"], "env": {"PPN": 2 if n % 2 == 0 else n}})
+        return cfgs
+    return configs
+
+
+PROPS["C15"] = dict(
+    module="RaptorModel.Props.C15",
+    harnesses=["h_sa"],
+    configs=sa_configs("C15", [1, 2, 3, 4, 6], [1, 2, 3, 4, 5, 6, 8, 12, 16]),
+    rule=("symmetric strength graphs with self loops from random undirected weighted graphs (isolated vertices included), up to ~30 vertices "
+          "(thorough: more), distinct random keys, thresholds 0 and 1/4; layouts incl. empty ranks; standard and node-aware. "
+          "Non-trivial = the graph has an edge."),
+    trusted=COMMON_TRUST + ["keys are distinct doubles (k+1)/(4(n+2)); comparisons exact"],
+    assumptions=["symmetric strength graph (the property's domain)"],
+)
+
+PROPS["C16"] = dict(
+    module="RaptorModel.Props.C16",
+    harnesses=["h_sa"],
+    configs=sa_configs("C16", [1, 2, 3, 4, 6], [1, 2, 3, 4, 5, 6, 8, 12, 16]),
+    rule=("arbitrary aggregations (random number/size of aggregates, singletons, aggregates spanning ranks, unaggregated vertices), candidate "
+          "vectors with non-zero entries of either sign, symmetric M-matrix-like A, omega in {1/4..7/4, 4/3}, k in {1,2}; layouts incl. empty ranks. "
+          "Non-trivial = more than one vertex."),
+    trusted=COMMON_TRUST + ["identities evaluated at double precision with relative tolerance 1e-10"],
+    assumptions=["one candidate per aggregate (the path the solvers use)"],
+)
